@@ -1287,6 +1287,54 @@ def ob_range(label, which):
     return fn
 
 
+# default epoch grid (times=None): the boundaries are cumulative sums of origin/m, the last of which need not be bit-equal to the origin
+_GRID_ORIGINS = (6.2, 5.3, 6.0, 10.0, 7.7, 3.3)
+
+
+def _default_grid_case(origin, m, survival):
+    import torchtree.evolution.bdsk as bd
+    t64 = lambda v: torch.tensor(v, dtype=torch.float64)
+    tips, internal = [0.0, 0.0, 0.0, 0.75, 1.5], [0.5, 1.0, 2.0, 2.5]
+    lam, mu, psi, rho = 2.0, 1.0, 0.5, 0.3
+    want = float(S.log_density(origin, internal, [0.75, 1.5], 3, lam, mu, psi, rho, r=1.0, survival=survival))
+    try:
+        got = bd.PiecewiseConstantBirthDeath(t64([lam] * m), t64([mu] * m), t64([psi] * m), rho=t64([rho]), origin=t64([origin]), survival=survival).log_prob(t64(tips + internal))
+        got = float(got.reshape(-1)[0])
+    except Exception as e:
+        if not _raised_in_repo(e):
+            raise
+        got = "%s: %s" % (type(e).__name__, str(e)[:120])
+    return got, want
+
+
+def _default_grid_problems():
+    bad, n = [], 0
+    for origin in _GRID_ORIGINS:
+        for m in range(1, 9):
+            for survival in (False, True):
+                got, want = _default_grid_case(origin, m, survival)
+                n += 1
+                if isinstance(got, str) or not (abs(got - want) <= 1e-8 * max(1.0, abs(want))):
+                    bad.append("origin %s split into %d identical epochs on the default grid (survival=%s): %s, one epoch / closed form %.10f" % (
+                        origin, m, survival, got if isinstance(got, str) else "%.10f" % got, want))
+    return bad, n
+
+
+def ob_default_grid():
+    def fn():
+        bad, n = _default_grid_problems()
+        if bad:
+            raise Refuted("; ".join(bad[:3]), witness={"problems": bad[:12]}, replay={"kind": "custom", "contract": "C09", "func": "replay_default_grid", "args": {}}, confirmed=True)
+        return {"backend": "numeric (closed form vs real code)", "cases": n, "bounded": "origins %s, 1..8 epochs" % (_GRID_ORIGINS,),
+                "statement": "%d cases: rho-sampled tips at the present, identical rates on the default (times=None) grid of 1..8 epochs give the one-epoch closed form" % n}
+    return fn
+
+
+def replay_default_grid(args):
+    bad, _ = _default_grid_problems()
+    return (False, "; ".join(bad[:3])) if bad else (True, "held")
+
+
 def _must_refute(make_scn, seed, what):
     def fn():
         try:
@@ -1588,6 +1636,7 @@ def obligations(tier, seed):
         sc("C09.single_epoch.model_call[T=%d,tips=%s]" % (T, tips), "scn_model_call", (T, tips, "sym", True),
            "BDSKModel._call: (R, delta, s) parameterisation of the same density")
 
+    obs.append(Ob("C09.refine.default_grid", "B", ob_default_grid(), clause="unchanged when an epoch is split into sub-epochs with identical rates (default grid: boundaries that are sums of origin/m)", funcs=FUNCS))
     for label in _RANGE_CASES:
         for which in ("1", "3", "constant"):
             obs.append(Ob("C09.range[%s,%s]" % (label, "constant model" if which == "constant" else "epochs=" + which), "B", ob_range(label, which),
